@@ -8,6 +8,13 @@ from pv import common
 
 
 def main():
+    # kill -USR1 <pid> dumps the stacks of every thread of a worker to its stderr (diagnosis of a stuck run)
+    try:
+        import faulthandler, signal
+
+        faulthandler.register(signal.SIGUSR1, all_threads=True)
+    except Exception:
+        pass
     modname = sys.argv[1]
     job = json.loads(sys.stdin.read() or "{}")
     common.assert_repo_sources()
@@ -21,6 +28,12 @@ def main():
         res = {"harness_error": "%s: %s" % (type(e).__name__, e), "trace": traceback.format_exc()[-3000:]}
     sys.stdout.write("\nPVRESULT " + json.dumps(common.jsonable(res)) + "\n")
     sys.stdout.flush()
+    sys.stderr.flush()
+    # the result is out: do not let a non-daemon thread left behind by a run (an agent that was never stopped) keep the
+    # worker alive until the parent's timeout
+    import os
+
+    os._exit(0)
 
 
 if __name__ == "__main__":
